@@ -314,7 +314,9 @@ def gen_model(rng, onnx, kind, idx, opset=18):
         r = rng.random()
         out = f"t{i}"
         if r < 0.45:
-            cur = add_node(rng.choice(INERT_UNARY), [cur], out)
+            # never the same unary op twice in a row (Relu(Relu(x)) is a rewrite-rule pattern, the model would not be inert)
+            prev = nodes[-1].op_type if nodes else None
+            cur = add_node(rng.choice([u for u in INERT_UNARY if u != prev]), [cur], out)
         elif r < 0.8:
             cur = add_node(rng.choice(["Add", "Mul", "Sub"]), [cur, finit(f"c{i}")], out)
         elif len(inputs) > 1 and r < 0.9:
